@@ -9,7 +9,7 @@ import tempfile
 
 import lib
 from lib import sx, call
-from c09 import js_sx, sx_js, jeq, first_diff
+from c09 import js_sx as _js_sx, sx_js, jeq, first_diff, sort_json
 
 META = {
     "level": "Proof (Coq): for ALL ids (integer / string), methods, params objects, results, codes, messages and data, every envelope "
@@ -310,7 +310,7 @@ def gen_cases(ctx, inv):
         def hk(kw, intent=None, **flags):
             c = {"em": "helper", "fn": fn, "module": mod, "kwargs": kw, **flags}
             add(c, intent, fam)
-        hk(dict(base))
+        hk(dict(base), None, base=True)
         if fn == "send_message":
             for p in V.objs:
                 i = V.rot(IDS)
@@ -354,7 +354,8 @@ def gen_cases(ctx, inv):
             skipped.append(f"{d['module']}.{d['name']}: no recipe")
     # ---- D: the server handler ---------------------------------------------------
     def srv(msg, how, intent, session=False):
-        add({"em": "server", "msg": msg, "how": how, "session": session}, intent, "server:" + str(msg.get("method")))
+        add({"em": "server", "msg": msg, "how": how, "session": session}, intent,
+            "server:" + (msg["method"] if "method" in msg else "<response-shaped input>"))
     for i in IDS:
         for how in ("parse", "specific"):
             res = {"kind": "res", "id": i, "method": None, "params": None, "result": "$wire", "error": None}
@@ -505,6 +506,12 @@ def run_workers(doc, backends=(False, True)):
 # --------------------------------------------------------------------------- #
 # Encodings for the driver
 # --------------------------------------------------------------------------- #
+def js_sx(v):
+    """JSON value -> sexp.  Object members are sorted first: member order is not something the property (or JSON) talks
+    about, Python dicts cannot repeat a key, and the extracted checkers compare association lists position by position."""
+    return _js_sx(sort_json(v))
+
+
 def is_rid(i):
     return type(i) is int or type(i) is str
 
@@ -580,8 +587,19 @@ def fill_intent(intent, wire_view):
     return out
 
 
+DRIVEN = {"stdio-transport", "http-transport", "sse-transport"}
+
+
+def blame(c, row):
+    """Whose failure is it: a wire form only a real transport produced (the same object serialised by the transport's own
+    expression is fine) is the transport's; anything else is the emitter's."""
+    if set(row["names"]) <= DRIVEN:
+        return "+".join(sorted(row["names"]))
+    return c["family"]
+
+
 def case_key(c):
-    return {k: v for k, v in c.items() if k not in ("intent", "family", "drive")}
+    return {k: v for k, v in c.items() if k not in ("intent", "family", "drive", "base")}
 
 
 # --------------------------------------------------------------------------- #
@@ -684,7 +702,7 @@ def judge(ctx, drv, cases, docs):
             continue
         # ---- the property on the implementation's output
         ctx.spec_total += 1
-        fam = c["family"]
+        fam = row["fam"] = blame(c, row)
         if not row["valid"]:
             fails.append({"klass": f"{fam}:invalid-json-rpc:{row['defect']}", "ci": row["ci"], "b": row["b"],
                           "detail": json.dumps({"wire": row["value"], "via": row["names"]})[:500]})
@@ -704,7 +722,7 @@ def judge(ctx, drv, cases, docs):
     for (k, what), ok in zip(idx2, res2):
         row = rows[k]
         c = cases[row["ci"]]
-        fam = c["family"]
+        fam = row["fam"]
         ctx.spec_total += 1
         if ok:
             continue
@@ -733,7 +751,7 @@ def judge(ctx, drv, cases, docs):
             o = row["obj"]
             ctx.spec_total += 1
             if o["kind"] != row["wire_view"]["kind"] or type(o["id"]) is not type(row["wire_view"]["id"]) or o["id"] != row["wire_view"]["id"]:
-                fails.append({"klass": f"{cases[row['ci']]['family']}:object-and-wire-form-disagree", "ci": row["ci"], "b": row["b"],
+                fails.append({"klass": f"{row['fam']}:object-and-wire-form-disagree", "ci": row["ci"], "b": row["b"],
                               "detail": json.dumps({"object": o, "wire": row["value"]})[:500]})
     ctx.extra["parse_correspondence_checks"] = ctx.extra.get("parse_correspondence_checks", 0) + corr_seen
     return fails, rows
@@ -815,7 +833,7 @@ def explore(ctx, drv, inv):
     docs = [("pydantic", False, docs_raw[0]["results"]), ("fallback", True, docs_raw[1]["results"])]
     for c in cases:
         ck = case_key(c)
-        ctx.case(ck, nontrivial=True)
+        ctx.case(ck, nontrivial=not c.get("base"))
         ctx.count("family:" + (c["family"].split(":")[0] if c["em"] == "server" else c["family"]))
         ctx.count("em:" + c["em"])
         i = c.get("intent")
@@ -891,6 +909,7 @@ def run(ctx):
         raise
     if ctx.broken_obligations:
         ctx.escalated = True
+    ctx.extra["tree_under_test"] = tree_state()
     inv = inventory(ctx)
     explore(ctx, drv, inv)
     if ctx.corr_mismatch and not ctx.escalated and not ctx.spec_fail:
@@ -905,25 +924,44 @@ def run(ctx):
                 f"values, every id of {len(IDS)} shapes (0, negatives, 2^63..2^64-1, empty / digit / non-ASCII strings) x 3 payloads, "
                 "every method / code / message shape; both back ends; each emitted object serialised as stdio and as HTTP POST body, a "
                 "deterministic sample also through the three real transports; parse stream = products of member shapes (exhaustive in "
-                "the thorough tier). distinct = distinct case descriptors")
+                "the thorough tier). distinct = distinct case descriptors; non-trivial = every case except the bare default-recipe call of a helper "
+                "(a case carries a payload, an id, a method or a string from the boundary lists, or a parser input)")
     return lib.finish(ctx, TRUSTED, ASSUME)
 
 
+def tree_state():
+    """Which tree was checked (the theorems are about the code with fixes/C02-*.patch applied)."""
+    _rc, head = lib.sh(["git", "-C", lib.REPO, "rev-parse", "--short", "HEAD"], timeout=30)
+    _rc2, st = lib.sh(["git", "-C", lib.REPO, "status", "--porcelain"], timeout=30)
+    return {"path": lib.REPO, "head": head.strip(), "modified_files": [ln[3:] for ln in st.split("\n") if ln.strip()]}
+
+
 def replay(ctx, data):
+    """Re-run one case descriptor under both back ends (also used for corpus cases, which run before every check:
+    a failure is registered with the context, so lib.finish reports it)."""
     drv = lib.Driver(PID)
     c = data["case"]
     case = dict(c["case"])
     case["family"] = c.get("family", case["em"])
     if c.get("intent") is not None:
         case["intent"] = c["intent"]
-    case["drive"] = True
+    if case["em"] not in ("stdio_batch_rejection", "transport_synth", "parse"):
+        case["drive"] = True
     docs_raw = run_workers({"mode": "run", "cases": [{k: v for k, v in case.items() if k not in ("intent", "family")}]})
     docs = [("pydantic", False, docs_raw[0]["results"]), ("fallback", True, docs_raw[1]["results"])]
     fails, _rows = judge(ctx, drv, [case], docs)
-    for bname, _fb, res in docs:
-        print(f"{bname}:", json.dumps(res[0], default=str)[:900])
+    by = {}
     for f in fails:
-        print("REPRODUCED", f["klass"], f["b"], f["detail"][:300])
-    if not fails:
-        print("not reproduced")
+        by.setdefault(f["klass"], {})[f["b"]] = f
+    for klass, per in sorted(by.items()):
+        suffix = "" if len(per) == 2 else ":" + next(iter(per)) + "-only"
+        ctx.spec_violation(klass + suffix, {"case": case_key(case), "family": case["family"], "intent": case.get("intent"),
+                                           "backends": sorted(per)}, next(iter(per.values()))["detail"])
+    if ctx.replay is not None:
+        for bname, _fb, res in docs:
+            print(f"{bname}:", json.dumps(res[0], default=str)[:900])
+        for f in fails:
+            print("REPRODUCED", f["klass"], f["b"], f["detail"][:300])
+        if not fails:
+            print("not reproduced")
     return 1 if fails else 0
